@@ -640,33 +640,131 @@ func enumDisplayMatrix(s *compatSink) {
 		}
 		return schema.NewDisplayValue(schema.PointerTo(n), nil, nil)
 	}
+	named := func(n string) bool { return n != "" && n != "-" }
 	opts := []string{"", "-", "One", "Uno"}
+	// consumer: x with display a, y without a name, z named "Zed"; producers: subsets with their own displays,
+	// sometimes with a value the consumer does not have. Every pair is evaluated 12 times: the verdict must
+	// be the same each time (Go visits the producer's values in random order) and be the expected one.
+	type pv struct{ key, disp string }
+	producers := func(b string) [][]pv {
+		return [][]pv{{{"x", b}}, {{"x", b}, {"y", ""}}, {{"y", ""}, {"x", b}, {"w", ""}}, {{"y", "-"}, {"w", "Dabbelju"}}, {{"z", ""}, {"y", ""}},
+			{{"z", "Zed"}, {"y", ""}, {"x", b}}, {{"y", ""}, {"z", "Zett"}}}
+	}
 	for _, a := range opts {
+		consumer := map[string]string{"x": a, "y": "", "z": "Zed"}
 		for _, b := range opts {
-			for _, kind := range []string{"string", "int"} {
-				var self, other schema.Type
-				if kind == "string" {
-					self = schema.NewStringEnumSchema(map[string]*schema.DisplayValue{"x": name(a), "y": nil})
-					other = schema.NewStringEnumSchema(map[string]*schema.DisplayValue{"x": name(b)})
-				} else {
-					self = schema.NewIntEnumSchema(map[int64]*schema.DisplayValue{1: name(a), 2: nil}, nil)
-					other = schema.NewIntEnumSchema(map[int64]*schema.DisplayValue{1: name(b)}, nil)
+			for _, prod := range producers(b) {
+				for _, kind := range []string{"string", "int"} {
+					var self, other schema.Type
+					ik := map[string]int64{"x": 1, "y": 2, "z": 3, "w": 4}
+					if kind == "string" {
+						sm, om := map[string]*schema.DisplayValue{}, map[string]*schema.DisplayValue{}
+						for k, d := range consumer {
+							sm[k] = name(d)
+						}
+						for _, p := range prod {
+							om[p.key] = name(p.disp)
+						}
+						self, other = schema.NewStringEnumSchema(sm), schema.NewStringEnumSchema(om)
+					} else {
+						sm, om := map[int64]*schema.DisplayValue{}, map[int64]*schema.DisplayValue{}
+						for k, d := range consumer {
+							sm[ik[k]] = name(d)
+						}
+						for _, p := range prod {
+							om[ik[p.key]] = name(p.disp)
+						}
+						self, other = schema.NewIntEnumSchema(sm, nil), schema.NewIntEnumSchema(om, nil)
+					}
+					want := true
+					for _, p := range prod {
+						cd, known := consumer[p.key]
+						if !known || named(cd) != named(p.disp) || (named(cd) && cd != p.disp) {
+							want = false
+						}
+					}
+					what := fmt.Sprintf("%s enum, consumer %v, producer %v", kind, consumer, prod)
+					accepted, rejected := 0, 0
+					var lastErr error
+					panicked := ""
+					for rep := 0; rep < 12; rep++ {
+						var err error
+						r := hx.Guard(func() hx.Result { err = self.ValidateCompatibility(other); return hx.Result{R: "ok"} })
+						s.stats["enum-display"]++
+						if r.R == "panic" {
+							panicked = r.Msg
+							break
+						}
+						if err == nil {
+							accepted++
+						} else {
+							rejected++
+							lastErr = err
+						}
+					}
+					switch {
+					case panicked != "":
+						s.finding(Finding{Prop: "C15", What: "ValidateCompatibility panicked on enums with display values: " + panicked, Detail: []string{what}})
+					case accepted > 0 && rejected > 0:
+						s.finding(Finding{Prop: "C15", What: fmt.Sprintf("the verdict on two enums is not deterministic: accepted %d times, rejected %d times", accepted, rejected), Detail: []string{what}})
+					case want && rejected > 0:
+						s.finding(Finding{Prop: "C15", What: "enums with compatible values and display names were rejected: " + lastErr.Error(), Detail: []string{what}})
+					case !want && accepted > 0:
+						s.finding(Finding{Prop: "C15", What: "enums with an unknown value or differing display names were accepted", Detail: []string{what}})
+					}
 				}
-				named := func(n string) bool { return n != "" && n != "-" }
-				want := (!named(a) && !named(b)) || (named(a) && named(b) && a == b)
-				var err error
-				r := hx.Guard(func() hx.Result { err = self.ValidateCompatibility(other); return hx.Result{R: "ok"} })
-				s.stats["enum-display"]++
-				what := fmt.Sprintf("%s enum, consumer display %q, producer display %q", kind, a, b)
-				switch {
-				case r.R == "panic":
-					s.finding(Finding{Prop: "C15", What: "ValidateCompatibility panicked on enums with display values: " + r.Msg, Detail: []string{what}})
-				case want && err != nil:
-					s.finding(Finding{Prop: "C15", What: "enums with compatible display names were rejected: " + err.Error(), Detail: []string{what}})
-				case !want && err == nil:
-					s.finding(Finding{Prop: "C15", What: "enums with differing display names were accepted", Detail: []string{what}})
+			}
+		}
+	}
+	floatRangeMatrix(s)
+}
+
+// floatRangeMatrix: float ranges with absent bounds, negative and zero bounds, on both sides: two
+// ranges are compatible exactly when they overlap (an absent bound is infinite); in particular every
+// non-empty range is compatible with itself.
+func floatRangeMatrix(s *compatSink) {
+	vals := []*float64{nil, fp(-7.5), fp(-2), fp(-0.25), fp(0), fp(0.5), fp(3)}
+	lo := func(p *float64) float64 {
+		if p == nil {
+			return math.Inf(-1)
+		}
+		return *p
+	}
+	hi := func(p *float64) float64 {
+		if p == nil {
+			return math.Inf(1)
+		}
+		return *p
+	}
+	fs := func(p *float64) *string {
+		if p == nil {
+			return nil
+		}
+		return hx.FloatP(*p)
+	}
+	for _, smin := range vals {
+		for _, smax := range vals {
+			for _, omin := range vals {
+				for _, omax := range vals {
+					if (smin != nil && smax != nil && *smin > *smax) || (omin != nil && omax != nil && *omin > *omax) {
+						continue
+					}
+					self := &hx.Ty{T: "float", Min: fs(smin), Max: fs(smax)}
+					other := &hx.Ty{T: "float", Min: fs(omin), Max: fs(omax)}
+					overlap := math.Max(lo(smin), lo(omin)) <= math.Min(hi(smax), hi(omax))
+					r, id := s.emitCompat(self, other, "float-ranges", false)
+					switch {
+					case r.R == "panic":
+						s.finding(Finding{Prop: "C15", What: "ValidateCompatibility panicked on float ranges: " + r.Msg, Cases: []int{id}, Schema: self})
+					case overlap && r.R != "ok":
+						s.finding(Finding{Prop: "C15", What: "overlapping float ranges were rejected: " + r.Msg, Cases: []int{id}, Schema: self})
+					case !overlap && r.R == "ok":
+						s.finding(Finding{Prop: "C15", What: "float ranges that cannot overlap were accepted", Cases: []int{id}, Schema: self})
+					}
 				}
 			}
 		}
 	}
 }
+
+func fp(f float64) *float64 { return &f }
